@@ -98,6 +98,10 @@ func (t *RawTarget) serve(c net.Conn) {
 			var sink bytes.Buffer
 			sink.ReadFrom(req.Body)
 		}
+		if req.Method == "CONNECT" { // the connect gun's tunnel: established, the tunnelled requests follow
+			c.Write([]byte("HTTP/1.1 200 Connection established\r\n\r\n"))
+			continue
+		}
 		t.requests.Add(1)
 		letter := req.Header.Get("X-Letter")
 		switch {
